@@ -383,7 +383,7 @@ def r3(ctx: Ctx, rep: Report, fams):
 
 
 # ----------------------------------------------------------------------- R4
-TOTAL_CALLS = {"len", "int.from_bytes", "isinstance", "bool", "FAILURE_CODES.get", "sum", "bytes", "bytearray", "hex", "str", "range"}
+TOTAL_CALLS = {"struct.unpack_from", "unpack_from", "len", "int.from_bytes", "isinstance", "bool", "FAILURE_CODES.get", "sum", "bytes", "bytearray", "hex", "str", "range"}
 
 
 def r4(ctx: Ctx, rep: Report, fams):
@@ -413,14 +413,23 @@ def r4(ctx: Ctx, rep: Report, fams):
                     ok_lo = entails_ge(facts, idx) or entails_ge(facts, ln + idx)
                     k = (id(sub))
                     prev = done.get(k, (True, None))
-                    done[k] = (prev[0] and ok_hi and ok_lo, sub if not (ok_hi and ok_lo) else prev[1], idx, p)
+                    done[k] = (prev[0] and ok_hi and ok_lo, sub if not (ok_hi and ok_lo) else prev[1], idx, p, sub)
+                # struct.unpack_from(fmt, data, off): needs off + size(fmt) bytes (struct.error otherwise)
+                for call in [x for x in ast.walk(node) if isinstance(x, ast.Call) and norm(x.func) in ("struct.unpack_from", "unpack_from")]:
+                    sym = r.sym_at(i)
+                    t = sym.lin(call).single_term()
+                    okc = False
+                    need = None
+                    if t is not None and t[0] == "tuple" and len(call.args) >= 2 and isinstance(call.args[1], ast.Name) and call.args[1].id == data:
+                        off = sym.lin(call.args[2]) if len(call.args) > 2 else Lin.of_const(0)
+                        need = off + t[2]
+                        facts = r.facts_before(i)
+                        okc = entails_ge(facts, ln - need) and entails_ge(facts, off)
+                    prev = done.get(id(call), (True, None))
+                    done[id(call)] = (prev[0] and okc, None, need, p, call)
         for k, v in done.items():
             ok = v[0]
-            # find node for reporting
-            sub = None
-            for n in ast.walk(fn.node):
-                if id(n) == k:
-                    sub = n
+            sub = v[4]
             rep.check(ok, "C01.R4", "index:%s:%s" % (fn.short, norm(sub)), fn.loc(sub),
                       "%s proven inside the frame on every path reaching it" % norm(sub),
                       bad="%s: %s may be out of range (index %r not bounded by the length facts) [path %s]" % (fn.short, norm(sub), v[2], v[3].describe()))
